@@ -11,10 +11,12 @@ for l in (V / "known_findings.jsonl").read_text().split("\n"):
         fixed.append(m.groups())
     elif l.startswith("{"):
         known.append(json.loads(l))
+print("**Repaired in /repo**\n")
 print("| property | /repo commit | defect (failing input) |\n|---|---|---|")
 for p, c, w in fixed:
     print(f"| {p} | {c} | {w[:330]} |")
 print()
+print("**Recorded as known findings** (repair needs a state-dict / protocol / API decision, or the unedited suite encodes the\nbehaviour). A signature names the call site and configuration class; a different violation of the same property is\nstill reported (e.g. `C01|RetrievalPrecision|empty_target_action=pos|…` is recorded, `…|empty_target_action=neg|…` is not).\n")
 print("| property | signature | what |\n|---|---|---|")
 byp = {}
 for k in known:
